@@ -29,6 +29,11 @@ extern size_t g_i;				/* G1 ghost byte index inside the current public call's bu
 extern const uint8_t * g_ctr_in;
 extern uint8_t * g_ctr_out;
 extern size_t g_ctr_len;			/* ghost argument: length of the current public call */
+extern size_t g_k;				/* G1 ghost byte index into a block / a key schedule */
+/* "zero before free" monitor (AES part of C20), see harness/C20/aes_wipe.h */
+extern void * g_wipe_obj;			/* the tracked object that holds key material */
+extern size_t g_wipe_idx;			/* ghost byte index into it */
+extern int g_wipe_frees;			/* how often it reached free() */
 
 #ifdef C02_GHOST_DEFINE
 const struct crypto_aes_key * g_aes_key;
@@ -38,6 +43,10 @@ size_t g_i;
 const uint8_t * g_ctr_in;
 uint8_t * g_ctr_out;
 size_t g_ctr_len;
+size_t g_k;
+void * g_wipe_obj;
+size_t g_wipe_idx;
+int g_wipe_frees;
 #endif
 
 #ifndef CTR_MAXLEN
@@ -63,7 +72,7 @@ size_t g_ctr_len;
 	__CPROVER_old((a)[14]) == (b)[14] && __CPROVER_old((a)[15]) == (b)[15])
 
 /* byte k (memory order, little-endian lanes) of a GCC vector of two 64-bit lanes */
-#define M128_BYTE(v, k) ((((unsigned long long)(v)[(k) / 8]) >> (8 * ((k) % 8))) & 0xff)
+#define M128_BYTE(v, k) ((((v)[(k) / 8]) >> (8 * ((k) % 8))) & 0xff)
 #define M128_EQ_B16(v, b) ( \
 	M128_BYTE(v, 0) == (b)[0] && M128_BYTE(v, 1) == (b)[1] && M128_BYTE(v, 2) == (b)[2] && M128_BYTE(v, 3) == (b)[3] && \
 	M128_BYTE(v, 4) == (b)[4] && M128_BYTE(v, 5) == (b)[5] && M128_BYTE(v, 6) == (b)[6] && M128_BYTE(v, 7) == (b)[7] && \
